@@ -46,6 +46,16 @@ def handle (s : St) (ws : List String) : St × String :=
   | ["new", stmt, rn, tt, tm] => match stmt.toNat?, rn.toNat?, optB tt, optB tm with
     | some st, some rn, some (some tt), some (some tm) => ({ stmt := st, nextRunNo := rn, tt := tt, tm := tm }, "ok")
     | _, _, _, _ => (s, "bad-op")
+  | ["pexit", r] =>
+    -- the child emits a prompt and exits at once (the event is still in the channel when the process has exited):
+    -- the model runs the two environment operations back to back
+    match optN r with
+    | some r =>
+      let (s1, o1) := step s .childPrompt
+      let (s2, o2) := step s1 (.childExit r)
+      let ce := match s2.cont with | some b => b01 b | none => "E"
+      (s2, " ".intercalate ((o1 ++ o2).map obsS ++ [s!"st={s2.ms}", s!"ce={ce}"]))
+    | none => (s, "bad-op")
   | _ =>
     match parseOp ws with
     | some op =>
